@@ -814,8 +814,9 @@ def source_tie(ctx):
     lemmas = lemmas + qlem
     ctx.count("source-tie lemmas", len(lemmas))
     if bad:
-        ctx.violation("source tie broken: the formula chain regenerated from esutil/coords.py is no longer the model the theorems "
-                      "are about (%d of %d equalities fail; first: %s)" % (len(bad), len(lemmas), bad[0][0][:120]),
+        ctx.violation("source tie broken: the statements regenerated from esutil/coords.py and stat/util.py (or pinned in "
+                      "random.py) are no longer the model the theorems are about (%d of %d ties fail; first: %s)"
+                      % (len(bad), len(lemmas) + 1, bad[0][0][:160]),
                       {"kind": "source-tie", "failed": [b[0] for b in bad], "coq": bad[0][1][-1200:], "regenerated": defs,
                        "no_longer_checks": "C19 tie: regenerated formula chain = C19/Model.v"},
                       found_input=False)
